@@ -241,6 +241,7 @@ func (u *upstream) getClient(addr string) (*client, error) {
 }
 
 func (u *upstream) createClient(addr string) (*client, error) {
+	verifhook.At2("upstream.createClient", u, addr)
 	u.clientsMu.Lock()
 	defer u.clientsMu.Unlock()
 
